@@ -72,6 +72,10 @@ chk("C09", E1, "model_checking",
     "Every (suite class x CID x version, sending side, ordered selection of <=3 (4) concurrent operations from {3 Writes, peer retransmission arriving, UpdateKeys, Close} started at one quiescent point, emission hold none/0/1/2 with a Write queued behind the held write lock) plus the 2^48 boundary; every record of the execution is decoded with reference keys and (epoch, sequence) must strictly increase per sender and epoch in emission order; writes past 2^48-1 must fail and emit nothing. Lock-granularity interleavings are not enumerated here; export/import continuity is C19's.",
     "stateless model checking of the implementation: exhaustive concurrent-operation placement with a reference-keyed (epoch, sequence) monitor")
 
+chk("C15", E1, "model_checking",
+    "172 configurations (CID length pairs {none,0,1,4,8}^2 x DTLS 1.2/1.3 x RRC negotiated or stripped by a hello hook x observed side) x every event sequence of depth <=2-3 (thorough 3-4) over a 19-event alphabet (re-sourced, replayed, stale, forged, mis-wrapped, wrong-CID records; path_response delivered / dropped / late / wrong address / wrong cookie; second candidate path; ticks; application writes) on real endpoints with three extra addresses, judged by a reference model of RFC 9146 §6 / RFC 9853 (acceptance needs the own CID, emitted records carry the peer's CID, RemoteAddr changes only after authentic-newest + timely matching response + RRC negotiated, 3x amplification bound); plus listener routing over CID size x listener state x a datagram catalogue x source addresses.",
+    "stateless model checking of the implementation: exhaustive event-sequence enumeration against a reference migration model")
+
 props = [json.loads(l) for l in open('/verif/properties.jsonl')]
 PENDING = "check not built yet in this session (planned in DESIGN.md §5); not a claim that the technique cannot apply"
 NA = {}
